@@ -156,6 +156,49 @@ def configs(tier):
     return L
 
 
+class ModelFault(Exception):
+    pass
+
+
+def faulty_run(c, kfault, lims):
+    """adaptive run whose integrand raises once when its kfault-th point is evaluated; the caller catches the exception and continues the
+    refinement on the same object until the run returns"""
+    S = DP.build(c)
+    rec = DP.Recorder(S, lims['tol'], check_comb=True)
+    f = S['f']
+    state = {'n': 0, 'armed': True}
+    oe, ov = f.eval, f.eval_vectorized
+
+    def ev(x):
+        state['n'] += 1
+        if state['armed'] and state['n'] >= kfault:
+            state['armed'] = False
+            raise ModelFault('model evaluation %d failed' % state['n'])
+        return oe(x)
+
+    def evv(X):
+        X2 = np.asarray(X)
+        state['n'] += len(X2.reshape(-1, X2.shape[-1]))
+        if state['armed'] and state['n'] >= kfault:
+            state['armed'] = False
+            raise ModelFault('model evaluation %d failed' % state['n'])
+        return ov(X)
+    f.eval, f.eval_vectorized = ev, evv
+    started, ret, nfaults = False, None, 0
+    with impl.quiet(), impl.watchdog(c.get('timeout', 240)):
+        while ret is None:
+            try:
+                if not started:
+                    started = True
+                    ret = S['combi'].performSpatiallyAdaptiv(c['lmin'], c['lmax'], S['ec'], tol=lims['tol'], max_evaluations=lims['max'], min_evaluations=lims['min'], print_output=False)
+                else:
+                    ret = S['combi'].continue_adaptive_refinement(tol=lims['tol'], max_evaluations=lims['max'], min_evaluations=lims['min'])
+            except ModelFault:
+                nfaults += 1
+                rec.skip_np = True      # (the point count of the aborted step is not comparable)
+    return S, rec, ret, nfaults
+
+
 def doubled(res, other):
     try:
         return DP.close(2 * np.asarray(res, dtype=float), np.asarray(other, dtype=float), 1e-9)
@@ -265,6 +308,34 @@ def run(tier, seed):
             tr['_sig'] = {'reeval_doubles': False, 'reeval_flag_doubles': False, 'max_time': True}
             traces.append(tr)
             rep.count(1, key=(name, 'max_time', mt))
+    # a fault at a particular point: the user's model raises once in the middle of an evaluation step, the caller tries again on the same object
+    # (continue_adaptive_refinement): at every later stop the reported value must still be the combination of the component results
+    fault_cfgs = [dict(strategy='extendsplit', D=2, lmin=1, lmax=2, func='cornerpeak'), dict(strategy='extendsplit', D=2, lmin=1, lmax=2, func='vector', auto=True),
+                  dict(strategy='dimwise', D=2, lmin=1, lmax=2, func='cornerpeak')]
+    for c in fault_cfgs:
+        c.setdefault('norm', np.inf)
+        for kfault in ((40, 110) if tier == 'quick' else (5, 25, 40, 70, 110, 160, 240)):
+            name = '%s D=%d (%d,%d) %s%s, model raises once at evaluation %d' % (c['strategy'], c['D'], c['lmin'], c['lmax'], c['func'], ' auto' if c.get('auto') else '', kfault)
+            lims = {'tol': -1.0, 'min': 1, 'max': 130}
+            try:
+                S, rec, ret, nfaults = faulty_run(c, kfault, lims)
+                ev = DP.ret_event(S, rec, ret, c, lims, with_c05=False)
+                ind = DP.independent_combination(S)
+                ev['final_comb'] = DP.close(ret[3], ind)
+                pw = DP.points_and_weights_value(S)
+                ev['pw_same'] = DP.close(ret[3], pw, 1e-10)
+                ev['_pw'] = None if pw is None else [float(x) for x in pw]
+            except impl.Timeout:
+                rep.exclude(name + ': timeout')
+                continue
+            except Exception as ex:
+                rep.violation('C05_NoException', {'strategy': c['strategy'], 'exception': type(ex).__name__, 'fault': True}, {'config': str(c), 'fault_at': kfault, 'exception': repr(ex)},
+                              what='%s: continuing after the fault raised %r' % (name, ex))
+                continue
+            tr = DP.to_trace(c, lims, rec.events + [ev], name + ' (%d fault%s)' % (nfaults, '' if nfaults == 1 else 's'))
+            tr['_sig'] = {'reeval_doubles': False, 'reeval_flag_doubles': False, 'fault': True}
+            traces.append(tr)
+            rep.count(1, key=(name,))
     from harness.drivers.c13_driver import conclude
     return conclude(rep, traces, ('C05_',))
 
